@@ -105,6 +105,8 @@ func getRecipe(name string) (*recipe, error) {
 		r, err = buildAcct()
 	case "marked":
 		r, err = buildMarked()
+	case "owners":
+		r, err = buildOwners()
 	default:
 		err = fmt.Errorf("unknown setup %q", name)
 	}
@@ -346,6 +348,14 @@ func kvParts(f *fixture, initiator string, auth []string, prog string) (*world.P
 func buildBases(f *fixture, versions []int32, deep bool) ([]*baseTx, []string) {
 	var out []*baseTx
 	var notes []string
+	if f.rcp.Name == "owners" {
+		// the owner-kind setup feeds the spend-attempt family; the thorough tier
+		// also mutates accepted spends of its richer account kinds
+		if deep {
+			return ownerBases(f, versions), nil
+		}
+		return nil, nil
+	}
 	refs := f.rcp.refs
 	add := func(form string, v int32, tx *pb.Transaction, plan signPlan, outsiders []string) {
 		tx.Version = v
